@@ -74,6 +74,8 @@ pub struct Analysis {
   /// The innermost context call that had not returned when the session ended (abort site).
   pub open_op: Option<(Tid, OpK, Target)>,
   pub exec_stack: Vec<Tid>,
+  /// Tasks scheduled in a bottom-up build and not yet executed when the session ended.
+  pub pending: Vec<Tid>,
 }
 
 #[derive(Clone, Debug)]
@@ -617,6 +619,19 @@ impl<'a> Runner<'a> {
       }
       _ => {}
     }
+    // In a bottom-up build a stale record of a task that is still scheduled, and that the aborting task (transitively)
+    // required, should have been replaced first: that is an ordering failure, not a stale-edge finding.
+    if cause.is_some() {
+      // Only the requires that task t had recorded before this execution count for the order in which it was taken.
+      let old_first_hops: Vec<Tid> = self.prev[t].as_ref().map(|e| e.req_issued.clone()).unwrap_or_default();
+      let none_old2: Vec<Option<ExecRec>> = vec![None; prog.tasks.len()];
+      if let Some(q) = an.pending.iter().find(|q| **q != t && old_first_hops.iter().any(|h| h == *q || (*h != t && ledger_path(&self.ledger, &none_old2, *h, **q)))) {
+        let mut p2 = props.clone();
+        p2.push("C04");
+        self.viol(&p2, "abort-by-unordered-stale-record", step, format!("bottom-up build aborted on a stale record while task {q}, which the aborting task {t} (transitively) requires, was still scheduled and should have been executed first: {}", abort.info.short()));
+        return;
+      }
+    }
     match cause {
       Some(c) => {
         let sig = format!("{c}{suffix}");
@@ -930,6 +945,13 @@ impl<'a> Runner<'a> {
     if aborted {
       if let (Some((t, op, target, _)), Some(abort)) = (op_stack.last().copied(), res.abort.as_ref()) {
         let diag = matches!(abort.kind, AbortKind::Cycle | AbortKind::Hidden | AbortKind::Overlap);
+        // A require that was rejected as a cycle did not create its reserved edge.
+        if let (OpK::Require, Target::Task(u), AbortKind::Cycle) = (op, target, &abort.kind) {
+          if let Some(e) = self.ledger[t].as_mut() {
+            let completed_before = e.deps.iter().any(|d| d.target == Target::Task(u));
+            if !completed_before { e.req_issued.retain(|x| *x != u); }
+          }
+        }
         // A require of a task on the execution stack must be diagnosed as a cycle.
         if let (OpK::Require, Target::Task(u)) = (op, target) {
           if exec_stack.contains(&u) && abort.kind != AbortKind::Cycle && abort.kind != AbortKind::InjectedCrash {
@@ -994,7 +1016,7 @@ impl<'a> Runner<'a> {
 
     // Tracker oracles.
     self.check_tracker(step, slice, aborted);
-    Analysis { executed, validated_ok, open_op: op_stack.last().map(|(t, op, target, _)| (*t, *op, *target)), exec_stack }
+    Analysis { executed, validated_ok, open_op: op_stack.last().map(|(t, op, target, _)| (*t, *op, *target)), exec_stack, pending: pending.keys().copied().collect() }
   }
 
   fn check_tracker(&mut self, step: usize, slice: &[Ev], aborted: bool) {
